@@ -744,7 +744,7 @@ func (lb *LoadBalancer) findHealthyBackend(r *http.Request) *Backend {
 func (lb *LoadBalancer) proxyRequest(backend *Backend, w http.ResponseWriter, r *http.Request, startTime time.Time) error {
 	// Track the active connection
 	backend.IncrementConnections()
-	lb.metricsCollector.UpdateBackendConnections(backend.Name, backend.GetActiveConnections())
+	lb.metricsCollector.UpdateBackendConnections(backend.Name, backend.GetActiveConnections)
 
 	// Create a custom response writer to capture the status code
 	rw := &responseWriter{
@@ -757,7 +757,7 @@ func (lb *LoadBalancer) proxyRequest(backend *Backend, w http.ResponseWriter, r 
 	completed := false
 	defer func() {
 		backend.DecrementConnections()
-		lb.metricsCollector.UpdateBackendConnections(backend.Name, backend.GetActiveConnections())
+		lb.metricsCollector.UpdateBackendConnections(backend.Name, backend.GetActiveConnections)
 		if !completed {
 			lb.recordRequestMetrics(backend, http.StatusBadGateway, startTime, r)
 		}
